@@ -10,12 +10,17 @@ import (
 	"time"
 
 	"github.com/NethermindEth/juno/blockchain"
+	"github.com/NethermindEth/juno/clients/feeder"
+	"github.com/NethermindEth/juno/core/felt"
+	"github.com/NethermindEth/juno/core/pending"
 	"github.com/NethermindEth/juno/jsonrpc"
 	"github.com/NethermindEth/juno/rpc"
 	rpcv10 "github.com/NethermindEth/juno/rpc/v10"
 	rpcv8 "github.com/NethermindEth/juno/rpc/v8"
 	rpcv9 "github.com/NethermindEth/juno/rpc/v9"
+	"github.com/NethermindEth/juno/starknet"
 	"github.com/NethermindEth/juno/sync"
+	"github.com/NethermindEth/juno/sync/preconfirmed"
 	"github.com/NethermindEth/juno/utils/log"
 	"verif/harness/lib"
 )
@@ -32,12 +37,46 @@ type rpcNode struct {
 	newState bool
 	servers  map[string]*jsonrpc.Server
 	reqID    int
+
+	syncReader *preConfReader
+	feeder     *stubFeeder
+}
+
+// stubFeeder is the feeder gateway of a node that is in sync with the network: it knows no
+// transaction the node does not have. (node.go always configures a feeder client, so the
+// production path of getTransactionStatus for an unknown hash goes through it.) Every other method
+// of the interface is nil: the read methods under test must not call them.
+type stubFeeder struct {
+	feeder.Reader
+	calls int
+}
+
+func (f *stubFeeder) TransactionStatus(_ context.Context, _ *felt.Felt) (starknet.TransactionStatus, error) {
+	f.calls++
+	return starknet.TransactionStatus{FinalityStatus: starknet.NotReceived}, nil
+}
+
+// preConfReader is a sync reader with pre_confirmed data PRESENT: one pre-confirmed block on top
+// of the current head with transactions and a state diff of its own (supplied by the world).
+// With `chain == nil` it behaves like juno's NoopSynchronizer.
+type preConfReader struct {
+	sync.NoopSynchronizer
+	chain func() (preconfirmed.ChainReader, error)
+}
+
+func (p *preConfReader) PreConfirmedChain() (preconfirmed.ChainReader, error) {
+	if p.chain == nil {
+		return preconfirmed.ChainReader{}, pending.ErrPreConfirmedNotFound
+	}
+	return p.chain()
 }
 
 func newRPCNode(bc *blockchain.Blockchain, newState bool) (*rpcNode, error) {
 	logger := log.NewNopZapLogger()
-	h := rpc.New(bc, &sync.NoopSynchronizer{}, nil, "verif", logger, bc.Network())
-	n := &rpcNode{bc: bc, newState: newState, servers: map[string]*jsonrpc.Server{}}
+	sr := &preConfReader{}
+	fd := &stubFeeder{}
+	h := rpc.New(bc, sr, nil, "verif", logger, bc.Network()).WithFeeder(fd)
+	n := &rpcNode{bc: bc, newState: newState, servers: map[string]*jsonrpc.Server{}, syncReader: sr, feeder: fd}
 	type tbl struct {
 		name    string
 		methods []jsonrpc.Method
